@@ -15,10 +15,11 @@ CONSTANTS
   PrefRest = "t1"
   Stamps = {0, 1, 2, 3, 4, 5, 6, 7, 8, 9, 10, 11, 12, 13, 14, 15, 16, 17, 18, 19, 20, 21, 22, 23, 24, 25, 26, 27, 28, 29, 30, 999}
   MaxNow = 20
-  Shapes = {"ok", "short", "scalar", "badq", "badt", "nodata", "badtext"}
+  Shapes = {"ok", "okq", "short", "scalar", "badq", "badt", "nodata", "badtext"}
   LevelKinds = {"node", "module", "param"}
   Kinds = {"updateEvent", "updateItem"}
   Behs = {"ok", "oneshot", "raise"}
+  ErrBehs = {"ok", "raise"}
   InitDescs <- AnyDescs
   Descs <- AnyDescs
   MaxCbs = 99
